@@ -859,6 +859,11 @@ class ExprMixin(object):
                 return v
             if b.kind == "dict":
                 return self.dict_get(base, idx, spec)
+        if isinstance(base, dict) and isinstance(idx, str):
+            # **kwargs of a call (a Python-level mapping with literal keys)
+            if idx not in base:
+                raise VerifError("keyword %r not passed" % idx)
+            return base[idx]
         if isinstance(base, str):
             return base[idx]
         if isinstance(base, ArrV):
